@@ -962,7 +962,13 @@ theorem join_example :
   and `crossbeam_channel::unbounded` (one handle, one channel, `Nat` payloads), not about the handshake model:
   that a thread blocked in `thread-join!` / `channel/recv` is woken when the value arrives, mutexes
   (`lock-acquire!`), bounded channels and `receivers-select` are not modelled.
-* Relaxed atomics (the model is sequentially consistent), wall-clock bounds.
+* The repaired handshake (`SteelVerif.C15.ModelR`, proposed fixes of K15a / K15b): the progress theorems above are
+  NOT re-proved for it.  What is proved there is the safety half of "the new exit loop adds no deadlock":
+  `C15.R.parked_has_wakeup` (a thread that parks after a re-check has its token or the round's `unpark()` still to
+  come) and, by evaluation, that the K15a / K15b schedules run to completion (`C15.R.exitRaceR_completes`,
+  `C15.R.lateRegistrationR_ok`); the C16 check run against the patched tree is the rest (builder's report).
+* Relaxed atomics (the model is sequentially consistent; the one store→load pair of the repaired handshake:
+  `C15.R.Litmus`), wall-clock bounds.
 All of these are covered only by the program-level differential run (checks/c16.py). -/
 
 end SteelVerif.C16
